@@ -1382,7 +1382,31 @@ func gen(w *bufio.Writer, args map[string]string) {
 			exhaustive(w, 2, 4)
 		}
 		crashFamily(w, 2, 1, 8, quickTears, 4)
+		// a forced run on changed inputs that is cut short or cannot write the cache, then the revert: --force never
+		// licenses a later skip on inputs the task did not complete on
+		for _, t := range []int{1, 2} {
+			for _, cs := range []string{"E1", "E2", "E3", "F1", "F2", "F3", "K1", "K2", "P1", "P2", "P3", "P4", "P1t9", "P3t20"} {
+				for _, set := range []string{"AB", "A"} {
+					fmt.Fprintf(w, "T%d r.AB.0.- w.0.2 r.%s.1.%s w.0.1 r.AB.0.-\n", t, set, cs)
+					fmt.Fprintf(w, "T%d r.AB.0.- w.0.2 r.%s.1.%s r.AB.0.-\n", t, set, cs)
+				}
+			}
+		}
 		randomHistories(w, rng, nrand, 12, 0.1, 0.5)
+	case "C09":
+		// the run loop's part of C09 (extra engine of the cli check): failing tasks, alone and together with write errors
+		// of the cache file and kills — the failure is in the results, and nothing later treats the task as up to date
+		for _, t := range []int{1, 2} {
+			for _, cs := range []string{"-", "E1", "E2", "E3", "F1", "F2", "K1", "K2", "P2", "P3"} {
+				for _, fl := range []string{"f.A", "f.B"} {
+					fmt.Fprintf(w, "T%d r.AB.0.- w.0.2 %s r.AB.0.%s r.AB.0.- %s r.AB.0.-\n", t, fl, cs, fl)
+					fmt.Fprintf(w, "T%d %s r.AB.0.%s w.0.2 r.AB.0.- r.AB.1.-\n", t, fl, cs)
+				}
+			}
+		}
+		exhaustive(w, 2, 4)
+		exhaustive(w, 1, 4)
+		randomHistories(w, rng, nrand, 10, 0.2, 0.2)
 	default: // C01, C02
 		if thorough {
 			exhaustive(w, 1, 5)
